@@ -41,7 +41,7 @@ def shards(tier, seed):
     out.append({"kind": "worker", "runs": 10 if tier == "quick" else 150})
     out.append({"kind": "late_new", "ks": [1, 2, 3] if tier == "quick" else [1, 2, 3, 5, 8, 13], "noise_runs": 30 if tier == "quick" else 600})
     for sp in ("popen", "socket", "via"):
-        out.append({"kind": "kill", "spec": sp, "runs": 3 if tier == "quick" else 60})
+        out.append({"kind": "kill", "spec": sp, "runs": 5 if tier == "quick" else 60})
     return out
 
 
@@ -580,6 +580,24 @@ def run_kill(spec):
             cbch = gw.remote_exec("import time\nchannel.send('hello')\ntime.sleep(60)")
             cbch.setcallback(cbgot.append, endmarker="__end__")
             pid = ch.receive(20)
+            target = "worker"
+            if spec["spec"] != "popen" and rng.random() < 0.4:
+                # the process in the middle dies instead: the forwarder of a via gateway / the host of the socket server
+                target = "master"
+                pid = group["m"].remote_exec("import os\nchannel.send(os.getpid())").receive(20)
+            blocked_wait: list = []
+
+            def waiter():
+                try:
+                    other.waitclose(40)
+                    blocked_wait.append("returned")
+                except EOFError:
+                    blocked_wait.append("EOFError")
+                except BaseException as e:  # noqa
+                    blocked_wait.append(type(e).__name__)
+
+            wt = threading.Thread(target=waiter, daemon=True)
+            wt.start()
             from vlib import pairs
 
             pairs.wait_until(lambda: cbgot == ["hello"], 20)
@@ -598,7 +616,7 @@ def run_kill(spec):
                 term = "EOFError"
             except BaseException as e:  # noqa
                 term = type(e).__name__ + ": " + str(e)[:100]
-            label = f"kill {spec['spec']} n={n} after j={j}"
+            label = f"kill {spec['spec']} ({target}) n={n} after j={j}"
             res.count("kills")
             res.case(core.h64("kill", spec["spec"], run, n, j))
             if term != "EOFError":
@@ -615,10 +633,14 @@ def run_kill(spec):
                 res.violation(f"sibling-receive-after-kill-{type(e).__name__}:{spec['spec']}", label)
             try:
                 other.waitclose(15)
+                res.violation(f"waitclose-silent-after-kill:{spec['spec']}", f"{label}: a later waitclose() on a channel nobody closed returned normally")
             except EOFError:
                 pass
             except BaseException as e:
                 res.violation(f"sibling-waitclose-after-kill-{type(e).__name__}:{spec['spec']}", label)
+            wt.join(20)
+            if blocked_wait != ["EOFError"]:
+                res.violation(f"blocked-waitclose-after-kill-{(blocked_wait or ['still-blocked'])[0]}:{spec['spec']}", label)
             from vlib import pairs
 
             pairs.wait_until(lambda: "__end__" in cbgot, 10)
